@@ -191,6 +191,67 @@ def scn_timetree(tree_s, pattern, batch):
 
 
 # ----------------------------------------------------------------------------------------------
+# unbounded in the number of taxa: cut of the pre-order loop of the ratio transform (DESIGN A.5)
+
+
+def scn_ratio_cut(pair_index):
+    """One GENERIC iteration of `for parent_id, id_ in self._forward_indices` of the real GeneralNodeHeightTransform._call
+    (loop body compiled verbatim from the current source) on a pre-state satisfying the invariant
+    "bounds[id] <= bounds[parent] <= heights[parent]" with symbolic bounds, ratio and parent height:
+        heights'[id] ≡ bounds[id] + x[id]·(heights[parent] − bounds[id]);  bounds[id] <= heights'[id] <= heights[parent];
+        every other entry of heights is unchanged (frame).
+    With preorder_ok (parent before child) this is the inductive step of validity for trees of ANY size."""
+    def scn(mk):
+        from torchtree.evolution.tree_height_transform import GeneralNodeHeightTransform
+        from vt import loopcut
+        tree = ((0, (1, 2)), (3, 4))
+        T = 5
+        tm, _ = treemodels.build_reparam(tree, NAMES[:T], [0.0] * T, torch.tensor([0.5, 0.5, 0.5, 3.0], dtype=torch.float64), "ratios")
+        tr = tm.transform
+        c = loopcut.cut(GeneralNodeHeightTransform._call, 0)
+        pairs = [tuple(int(v) for v in p) for p in tr._forward_indices]
+        parent_id, id_ = pairs[pair_index % len(pairs)]
+        n = T - 1
+        # symbolic pre-state: bounds (per internal node) with bounds[id] <= bounds[parent]; heights[parent] >= bounds[parent]
+        b_id = mk.real("b_id", (), lo=0)
+        gap = mk.real("gap", (), lo=0, lo_incl=True)       # bounds[parent] - bounds[id] >= 0  (C06.bounds)
+        s = mk.real("s", (), lo=0)                           # heights[parent] - bounds[parent] > 0 ... >= 0 suffices
+        ratio = mk.unit("ratio", ())
+        others = mk.real("other", (n,))
+        bounds_int = mk.real("b_other", (n,), lo=0)
+        import numpy as np
+        from vt.symtorch import ST
+        if mk.symbolic:
+            bi = ST(bounds_int.a.copy()); bi.a[id_] = b_id.a[()]; bi.a[parent_id] = (b_id + gap).a[()]
+            x = ST(others.a.copy()); x.a[id_] = ratio.a[()]; x.a[parent_id] = (b_id + gap + s).a[()]
+            full_bounds = ST(np.concatenate([np.array([nf.ZERO] * T, dtype=object), bi.a]))
+        else:
+            bi = bounds_int.clone(); bi[id_] = b_id; bi[parent_id] = b_id + gap
+            x = others.clone(); x[id_] = ratio; x[parent_id] = b_id + gap + s
+            full_bounds = torch.cat((torch.zeros(T, dtype=torch.float64), bi))
+        saved = tr._bounds
+        tr._bounds = full_bounds
+        try:
+            state = c.prefix(tr, x)          # heights = x.clone(); bounds = self._bounds[taxa_count:]
+            h0 = state["heights"]
+            h0_copy = h0.clone() if not mk.symbolic else ST(h0.a.copy())
+            state.update(parent_id=parent_id, id_=id_)
+            tag, st2 = c.body(state)
+        finally:
+            tr._bounds = saved
+        h1 = st2["heights"]
+        cl = [("true", "loop_shape", c.kind == "for" and tag == "next", c.header)]
+        hp = el(h0_copy, (parent_id,))
+        new = el(h1, (id_,))
+        cl.append(("eq", "defining_equation", [new], [el(bi, (id_,)) + el(x, (id_,)) * (hp - el(bi, (id_,)))]))
+        cl.append(("ge0", "height_at_least_bound", [new - el(bi, (id_,))]))
+        cl.append(("ge0", "parent_at_least_as_old", [hp - new]))
+        cl.append(("eq", "frame_other_heights_unchanged", [el(h1, (m,)) for m in range(n) if m != id_], [el(h0_copy, (m,)) for m in range(n) if m != id_]))
+        return cl
+    return scn
+
+
+# ----------------------------------------------------------------------------------------------
 # frame: moving between devices / dtypes keeps the parameterisation
 
 
@@ -345,6 +406,9 @@ def obligations(tier, seed):
             if T <= 4:
                 add("C06.timetree[tree=%s,dates=%s]" % (ts, pats[0]), "scn_timetree", (ts, pats[0], ()), "heights -> branch lengths")
                 add("C06.timetree[tree=%s,dates=%s,batch=(2,)]" % (ts, pats[-1]), "scn_timetree", (ts, pats[-1], (2,)), "heights -> branch lengths")
+    for k in range(3):
+        obs.append(scenario_ob("C06", "C06.ratio.cut[pair=%d]" % k, "U", "scn_ratio_cut", (k,),
+                               clause="generic iteration of the pre-order loop: valid height, frame (unbounded in taxa)", funcs=FUNCS, seed=seed))
     add("C06.diff.smooth[tree=((0,1),(2,3)),k=2]", "scn_diff", ("((0,1),(2,3))", "hetero", (), 2.0), "smooth-max increment parameterisation: invertible")
     add("C06.diff.smooth[tree=((0,1),2),k=1,batch=(2,)]", "scn_diff", ("((0,1),2)", "ties", (2,), 1.0), "smooth-max increment parameterisation: invertible")
     for kind in ("ratios", "shifts"):
